@@ -604,6 +604,53 @@ func runC13(c *Ctx) {
 			}
 		}
 	})
+	// directed: values the messages echo verbatim (capability names, procMount, sysctl names, SELinux fields, profile types)
+	// that contain a control character, a quote or a non-ASCII rune, in a pod that violates further controls listed AFTER the
+	// one that echoes the value; audit and warn share one policy, enforce is privileged (so there is a warning): the warning
+	// and the audit annotation list the same controls, the text is the model's byte for byte
+	admitSweep(c, sizes(c, 200, 3000), AdmitKnobs{FaultPct: 0, SynPct: 0, SubPct: 0}, "allowed message warnings audit", "message warnings audit", func(a *AdmitCase, g AdmitOut) {
+		if a.Res == "namespaces" || g.AnnAudit == nil || len(g.Warnings) != 1 {
+			return
+		}
+		c.Tag("c13.oddValues")
+		// both texts are `would violate PodSecurity "<lv>": <list>`: same policy, so the same list
+		wi, ai := strings.Index(g.Warnings[0], `": `), strings.Index(*g.AnnAudit, `": `)
+		if wi >= 0 && ai >= 0 && g.Warnings[0][wi:] != (*g.AnnAudit)[ai:] {
+			c.Violate(Finding{Desc: "warn and audit share one policy, yet the warning and the audit annotation list different things", Key: "warning-differs-from-audit", Input: a.opJSON(),
+				Go: J{"warning": g.Warnings[0], "auditAnnotation": *g.AnnAudit}})
+		}
+	}, func(r *Rng, a *AdmitCase) {
+		if a.Res == "namespaces" || a.Obj.Pod == nil {
+			return
+		}
+		odd := pick(r, []string{"NET_ADMIN\nSYS_TIME", "NET\tRAW", "SYS_\rADMIN", "A\x01B", "CAP \"X\"", "CAP_é", "\x7fDEL", "A\vB\fC"})
+		p := a.Obj.Pod
+		t := true
+		p.Spec.OS, p.Spec.HostUsers = nil, nil
+		p.Spec.Containers = []corev1.Container{
+			{Name: "first", Image: "i", SecurityContext: &corev1.SecurityContext{Capabilities: &corev1.Capabilities{Add: []corev1.Capability{corev1.Capability(odd)}}}},
+			{Name: "side", Image: "i", SecurityContext: &corev1.SecurityContext{Privileged: &t}}}
+		p.Spec.InitContainers, p.Spec.EphemeralContainers = nil, nil
+		p.Spec.HostNetwork = true
+		switch r.Intn(3) {
+		case 0:
+			pm := corev1.ProcMountType(odd)
+			p.Spec.Containers[0].SecurityContext.ProcMount = &pm
+		case 1:
+			p.Spec.SecurityContext = &corev1.PodSecurityContext{Sysctls: []corev1.Sysctl{{Name: odd, Value: "1"}}}
+		default:
+			p.Spec.SecurityContext = &corev1.PodSecurityContext{SELinuxOptions: &corev1.SELinuxOptions{Type: odd}}
+		}
+		if a.Old.Pod != nil {
+			old := p.DeepCopy()
+			old.Spec.Containers[0].Image = "previous"
+			a.Old.Pod = old
+		}
+		a.ExNS, a.ExUsers, a.ExRC = nil, nil, nil
+		lv, v := pick(r, []string{"baseline", "restricted"}), pick(r, []string{"latest", "v1.25", "v1.0"})
+		a.NSLabels = map[string]string{api.EnforceLevelLabel: "privileged", api.AuditLevelLabel: lv, api.AuditVersionLabel: v, api.WarnLevelLabel: lv, api.WarnVersionLabel: v}
+		a.Tags = append(a.Tags, "c13.oddValueThenMoreControls")
+	})
 	// the warnings of a namespace update: every existing pod's violated controls, pods of one controller violating different
 	// controls, with the real evaluator (the reference is the model's dry run)
 	kn := AdmitKnobs{Kind: "ns", FaultPct: 0, SynPct: 0, SubPct: 0, Pods: func(r *Rng) []*corev1.Pod {
@@ -651,9 +698,40 @@ func namesQuoted(text, name string) bool {
 
 // ---------------------------------------------------------------- C14
 
+// c14WidePods: the catalogue's wide pods (16 … 40 containers, several controls violated) and long-message pods (up to 250
+// containers), each evaluated a dozen times on one evaluator: the same results in the same order every time (whatever an
+// implementation does with many containers — batching, parallel checks — the order of the results is the order of the checks)
+func c14WidePods(c *Ctx) {
+	ev, err := policy.NewEvaluator(policy.DefaultChecks())
+	if err != nil {
+		return
+	}
+	for _, pc := range catalogPods() {
+		if len(pc.Atoms) == 0 || !(strings.HasPrefix(pc.Atoms[0], "cat.wide") || strings.HasPrefix(pc.Atoms[0], "cat.longMessage") || strings.HasPrefix(pc.Atoms[0], "cat.many")) {
+			continue
+		}
+		p := pc.Pod
+		for _, lv := range []api.LevelVersion{mkLV("restricted", -1), mkLV("baseline", 24)} {
+			first := ev.EvaluatePod(lv, &p.ObjectMeta, &p.Spec)
+			for rep := 0; rep < 12; rep++ {
+				again := ev.EvaluatePod(lv, &p.ObjectMeta, &p.Spec)
+				c.Eval(1)
+				if !reflect.DeepEqual(first, again) {
+					n := len(p.Spec.Containers) + len(p.Spec.InitContainers) + len(p.Spec.EphemeralContainers)
+					c.Violate(Finding{Desc: fmt.Sprintf("a pod with %d containers evaluated again at %s gives the results in another order (or other results)", n, lv.String()), Key: "nondeterministic-wide-pod",
+						Input: J{"level": string(lv.Level), "version": lv.Version.String(), "containers": n, "atoms": pc.Atoms, "pod": p}, Go: J{"first": first, "again": again}})
+					break
+				}
+			}
+		}
+		c.Tag("c14.widePods")
+	}
+}
+
 func runC14(c *Ctx) {
 	runC14InformerCache(c)
 	runC14AdmissionVerbose(c)
+	defer c14WidePods(c)
 	n := 600
 	if c.Thorough {
 		n = 8000
